@@ -908,6 +908,10 @@ class Interp:
             if meth is not None:
                 return ("bound", obj, meth)
             raise Raised("AttributeError", (a,))
+        if obj is dict and a == "fromkeys":
+            return ("host", lambda ks, v=None: dict.fromkeys(self.iterate(ks), v))
+        if hasattr(obj, "e5_attr"):
+            return obj.e5_attr(a)         # a host stand-in that answers attribute reads itself (attrs.fields(cls).name)
         if isinstance(obj, Closure):
             fa = obj.__dict__.get("fattrs", {})
             if a in fa:
@@ -1158,6 +1162,13 @@ class Interp:
             return hasattr(obj, a) if isinstance(obj, (str, int, float, bool, list, tuple, dict, type(None))) else False
         if name == "getattr":
             obj, a = args[0], args[1]
+            if hasattr(obj, "e5_attr"):
+                try:
+                    return obj.e5_attr(a)
+                except Raised:
+                    if len(args) > 2:
+                        return args[2]
+                    raise
             if isinstance(obj, Record):
                 if a in obj.fields:
                     return obj.fields[a]
@@ -1176,11 +1187,11 @@ class Interp:
                 if len(args) > 2:
                     return args[2]
                 raise Raised("AttributeError", (a,))
-            if isinstance(obj, (str, int, float, bool, list, tuple, dict, type(None), Sentinel)) and not hasattr(obj, a):
+            if isinstance(obj, (str, int, float, bool, list, tuple, dict, type(None), Sentinel, type)) and not hasattr(obj, a):
                 if len(args) > 2:
                     return args[2]
                 raise Raised("AttributeError", (a,))
-            raise AnalysisError(f"{self.name}: getattr on concrete value")
+            raise AnalysisError(f"{self.name}: getattr({type(obj).__name__} value, {a!r})")
         if name == "iskeyword":
             return _keyword.iskeyword(args[0])
         if name == "repr":
